@@ -115,6 +115,64 @@ def run(ctx):
                 elif st == 'ok' and tin != used: why = why or '%s: input position after the end is %d, must be %d' % (tag, tin, used)
             if why:
                 viol.append(dict(coder=k, flags=fl, label=cases[i][1], why=why, file=cases[i][0].hex(), spec=[st, used, len(out)], impl=list(a[:4]), sliced=list(a3[:4])))
+    # ---- the tools that sit on these decoders (src/xz/coder.c, xzdec.c, lzmainfo.c): a .lzma file is accepted exactly when
+    # the format rules accept it AND nothing follows it; lzmainfo prints the header fields; incl. streams whose length is
+    # an exact multiple of xz's 8 KiB I/O buffer
+    import subprocess, tempfile, shutil, re
+    bdir = build('plain'); td = tempfile.mkdtemp(dir=WORK)
+    try:
+        tl = [(b, lab) for (b, lab, runs) in cases if lab.startswith('lzma') and len(b) < 40000][:(40 if ctx.quick() else 600)]
+        def lzma_of_size(target):
+            n = target - 30
+            for _try in range(400):
+                dat = bytes(rng.getrandbits(8) for _ in range(n))
+                c = lzma.compress(dat, format=lzma.FORMAT_ALONE, filters=[{'id': lzma.FILTER_LZMA1, 'dict_size': 1 << 16}])
+                if len(c) == target: return c
+                n += target - len(c)
+            return None
+        for mult in (1, 2):
+            c = lzma_of_size(8192 * mult)
+            if c: tl += [(c, 'lzma exactly %d bytes' % len(c)), (c + b'X', 'lzma exactly %d bytes + 1 trailing byte' % len(c)), (c + bytes(8192), 'lzma exactly %d bytes + 8192 zero bytes' % len(c))]
+        tspec = oracle_dec(orc, 'alonedec 0', [b for b, _l in tl])
+        def plausible(b):
+            # xz's own test before it treats a file as .lzma (coder.c is_format_lzma): dictionary size 2^n or 2^n + 2^(n-1),
+            # uncompressed size unknown or below 256 GiB; files outside it are "format not recognized" for the tool by design
+            if len(b) < 13 or b[0] > 224: return False
+            dsz = int.from_bytes(b[1:5], 'little'); usz = int.from_bytes(b[5:13], 'little')
+            ok_d = dsz != 0 and ((dsz & (dsz - 1)) == 0 or (dsz % 3 == 0 and ((dsz // 3) & (dsz // 3 - 1)) == 0 and dsz // 3 >= 1)) or dsz == 0xFFFFFFFF
+            return ok_d and (usz == (1 << 64) - 1 or usz < (1 << 38))
+        for (b, lab), (st, used, out) in zip(tl, tspec):
+            if st == 'fuel' or not plausible(b): continue
+            pth = os.path.join(td, 'f.lzma'); open(pth, 'wb').write(b)
+            want_ok = (st == 'ok' and used == len(b))
+            for name, cmd in (('xz -dc', [os.path.join(bdir, 'xz'), '-dc', pth]), ('xz -t --format=lzma', [os.path.join(bdir, 'xz'), '-t', '--format=lzma', pth]), ('lzmadec', [os.path.join(bdir, 'lzmadec'), pth])):
+                r = subprocess.run(cmd, capture_output=True, stdin=subprocess.DEVNULL, timeout=60); n_eval += 1
+                if (r.returncode == 0) != want_ok:
+                    viol.append(dict(coder=name, flags=0, label=lab, why='%s exit %d, but the format rules say %s with %d of %d bytes belonging to the stream' % (name, r.returncode, st, used, len(b)), file=b.hex(), spec=[st, used, len(out)], impl=[r.returncode], sliced=[]))
+                elif want_ok and name != 'xz -t --format=lzma' and r.stdout != out:
+                    viol.append(dict(coder=name, flags=0, label=lab, why='%s output differs from the defined content' % name, file=b.hex(), spec=[st, used, len(out)], impl=[r.returncode], sliced=[]))
+            if st == 'ok' and len(b) >= 13:
+                r = subprocess.run([os.path.join(bdir, 'lzmainfo'), pth], capture_output=True, stdin=subprocess.DEVNULL, timeout=60); n_eval += 1
+                txt = r.stdout.decode(errors='replace')
+                pbv = b[0]; lc_ = pbv % 9; lp_ = (pbv // 9) % 5; pb_ = pbv // 45; dsz = int.from_bytes(b[1:5], 'little'); usz = int.from_bytes(b[5:13], 'little')
+                m0 = re.search(r'\(([^)]*) bytes\)', txt.split('Dictionary size')[1]) if 'Dictionary size' in txt else None
+                class _M:
+                    def __init__(self, v): self.v = v
+                    def group(self, k): return self.v
+                m1 = None
+                if m0:
+                    try: m1 = _M(sum((1 << int(t.strip()[2:])) if t.strip().startswith('2^') else int(t.strip()) for t in m0.group(1).split('+')))
+                    except Exception: m1 = None
+                m2 = re.search(r'lc\):\s*(\d+)', txt); m3 = re.search(r'lp\):\s*(\d+)', txt); m4 = re.search(r'pb\):\s*(\d+)', txt)
+                got = (int(m1.group(1)) if m1 else None, int(m2.group(1)) if m2 else None, int(m3.group(1)) if m3 else None, int(m4.group(1)) if m4 else None)
+                # lzmainfo shows the dictionary size as 2^floor(log2(size)) (and rounded MB): that is its display format
+                shown_ok = got[0] is not None and dsz > 0 and got[0] <= dsz < 2 * got[0]
+                if r.returncode != 0 or not shown_ok or got[1:] != (lc_, lp_, pb_):
+                    viol.append(dict(coder='lzmainfo', flags=0, label=lab, why='lzmainfo prints %s (exit %d), the header says dict %d lc %d lp %d pb %d' % (got, r.returncode, dsz, lc_, lp_, pb_), file=b[:64].hex(), spec=[st, used, len(out)], impl=[r.returncode], sliced=[]))
+                if usz != (1 << 64) - 1 and ('%d bytes' % usz) not in txt.replace(',', '').replace('\u202f', ''):
+                    viol.append(dict(coder='lzmainfo', flags=0, label=lab, why='lzmainfo does not print the uncompressed size %d of the header' % usz, file=b[:64].hex(), spec=[st, used, len(out)], impl=[r.returncode], sliced=[]))
+    finally:
+        shutil.rmtree(td, ignore_errors=True)
     ctx.cov['evaluations'] = n_eval
     ctx.cov['distinct_nontrivial'] = len(distinct)
     ctx.cov['rule'] = '.lzma: 4 size/end-marker flavours x all props x dict values x wrong sizes x trailing data x bad props x picky limits; .lz: v0/v1, dict codes, 1-3 members, trailing data incl. partial magic; .xz concatenation with padding 0-9; decoders alone/lzip/stream/auto with and without LZMA_CONCATENATED, one-shot and randomly sliced; distinct = (decoder, flags, case class, verdict)'
@@ -122,7 +180,7 @@ def run(ctx):
     ctx.cov['samples'] = [cases[0][1], cases[0][0].hex()[:100], cases[-1][1]]
     if viol:
         v = min(viol, key=lambda x: len(x['file']))
-        ctx.violation('C16 %s [%s, decoder %d flags %d]' % (v['why'], v['label'], v['coder'], v['flags']), v)
+        ctx.violation('C16 %s [%s, decoder %s flags %s]' % (v['why'], v['label'], v['coder'], v['flags']), v)
     if not res['ok'] and not viol:
         ctx.violation('proof obligation of Properties_C16 no longer checks (%s)' % res['failing'],
                       {'theorem_file': 'coq/Properties_C16.v', 'failing': res['failing'], 'log_tail': res['log'][-3000:]}, found_input=False)
